@@ -70,8 +70,11 @@ func (f *fileDecorator) fragment(node ast.Node) {
 
 					// Avoid newlines in multi-line comments
 					if strings.HasPrefix(c.Text, "/*") {
+						// The scanner strips carriage returns from the text, so its length says
+						// nothing about where the comment ends in the file. The line breaks are
+						// all still there.
 						startLine := f.position(c.Pos()).Line
-						endLine := f.position(c.End()).Line
+						endLine := startLine + strings.Count(c.Text, "\n")
 
 						// multi line comment
 						if endLine > startLine {
@@ -102,8 +105,11 @@ func (f *fileDecorator) fragment(node ast.Node) {
 						continue
 					}
 
+					// The scanner strips carriage returns from raw strings, so the length of the
+					// value says nothing about where the literal ends in the file. The line
+					// breaks are all still there.
 					startLine := f.position(frag.Pos).Line
-					endLine := f.position(frag.Pos + token.Pos(len(frag.String))).Line
+					endLine := startLine + strings.Count(frag.String, "\n")
 
 					// multi line string
 					if endLine > startLine {
